@@ -670,6 +670,12 @@ class Sym:
                 return Sym(powi(self.n, int(e)))
             if e == 0.5:
                 return Sym(sqrt_node(self.n))
+            fq = Fraction(e).limit_denominator(2000)
+            if abs(float(fq) - e) <= 1e-13 * max(1.0, abs(e)):
+                # exponents such as (1 + m) / (2 - m) computed in floating point: read as the exact ratio
+                if fq.denominator > 1 and len(repr(e)) > 8:
+                    SNAPS.add((repr(e), f'{fq} (exponent)'))
+                return Sym(rpow(self.n, fq))
             q = lift_float(e)
             if isinstance(q, tuple) or not q.is_rational():
                 raise EngineLimit(f'irrational exponent {e}')
